@@ -224,6 +224,9 @@ func (g *gen) rpc(id int) *RPC {
 	}
 	if g.p(k.pCreds) {
 		r.Creds = &CredSpec{MD: g.md(2)}
+		if g.p(0.35) {
+			r.Creds.DelayN = g.dur() // the lookup takes (virtual) time
+		}
 	}
 	r.StopOnErr = g.p(k.pStopOnErr)
 	if r.Transport == TInproc {
@@ -439,7 +442,16 @@ func (g *gen) rpc(id int) *RPC {
 	}
 	// adversarial deviations
 	if g.p(k.pDeviate) {
-		switch g.pick(7) {
+		switch g.pick(8) {
+		case 7: // a worker the handler started uses the stream after the handler has returned
+			if r.Kind != KUnary && len(h) > 0 && h[len(h)-1].K == "return" {
+				n := 1 + g.pick(2)
+				var lateOps []Op
+				for i := 0; i < n; i++ {
+					lateOps = append(lateOps, Op{K: "late", N: g.pick(5), D: g.dur()})
+				}
+				h = append(h[:len(h)-1], append(lateOps, h[len(h)-1])...)
+			}
 		case 6: // the handler gives up on the requests: it reads a few and returns while the client is still sending
 			if r.Kind == KClientStream || r.Kind == KBidi {
 				nr := 0
